@@ -184,7 +184,7 @@ class Check(CheckBase):
         lines = {name: io_lines(fn) for name, fn in methods.items()}
         helper_targets = [(fn.__code__, ln) for fn in helpers for ln in io_lines(fn)]
         mon = sys.monitoring
-        state = {'target': None, 'left': 0, 'fired': 0}
+        state = {'target': None, 'left': 0, 'fired': 0, 'exc': OSError, 'errno': 5}
 
         def on_line(code, line):
             t = state['target']
@@ -192,7 +192,7 @@ class Check(CheckBase):
                 if state['left'] is not None:
                     state['left'] -= 1
                 state['fired'] += 1
-                raise OSError(5, f'vf: injected I/O error at {code.co_name}:{line}')
+                raise state['exc'](state['errno'], f'vf: injected I/O error at {code.co_name}:{line}')
         if mon.get_tool(TOOL) is not None:
             mon.free_tool_id(TOOL)
         mon.use_tool_id(TOOL, 'vf-failpoints')
@@ -226,9 +226,14 @@ class Check(CheckBase):
                     if not cand:
                         continue
                     target = r.choice(cand)
-                    state.update(target=target, left=count, fired=0)
+                    # the kind of OSError: EIO anywhere; for uploads also the kinds the code itself names as transient
+                    # (PermissionError on a simultaneous replace, a directory removed by a concurrent clean-up)
+                    exc, eno = OSError, 5
+                    if op in ('upload', 'upload_stream') and count is not None and r.random() < 0.4:
+                        exc, eno = r.choice([(PermissionError, 13), (FileNotFoundError, 2), (BlockingIOError, 11), (InterruptedError, 4)])
+                    state.update(target=target, left=count, fired=0, exc=exc, errno=eno)
                     pos = 'inside' if op in ('upload_stream', 'download_stream', 'upload', 'download') else 'call'
-                    label = f'line:{target[0].co_name}'
+                    label = f'line:{target[0].co_name}' + ('' if exc is OSError else f'[{exc.__name__}]')
                 else:
                     k = r.choice([1, 2, 3])
                     state.update(target=None, left=0, fired=0)
@@ -488,13 +493,15 @@ class Check(CheckBase):
         from .. import rep
         r = random.Random(case['seed'])
         kind = case['backend']
-        ops = list(set(self.OPS_OF[kind].values())) + (self.B2_AUX[:2] if kind == 'b2' else [])
-        faults = []
-        for o in ops:
-            for _ in range(r.randint(1, 3)):
-                fk = r.choice(['connect', 'status', 'drop-request', 'drop-response'])
-                faults.append({'op': o, 'nth': r.randrange(0, 30), 'count': r.choice([1, 1, 2]), 'kind': fk,
-                               'status': r.choice([500, 503]), 'after': r.choice([0, 1, 2])})
+        # a fault schedule that stays inside every retry budget by construction: bursts of 1-2 faulty requests (any
+        # operation), separated by at least 12 clean requests, so that no logical call meets more than one burst
+        conc = r.choice([1, 3])
+        faults, pos = [], r.randrange(3, 12)
+        for _ in range(r.randint(4, 14)):
+            fk = r.choice(['connect', 'status', 'drop-request', 'drop-response'])
+            faults.append({'op': None, 'nth': pos, 'count': 1 if conc > 1 else r.choice([1, 2]), 'kind': fk,
+                           'status': r.choice([500, 503]), 'after': r.choice([0, 1, 2])})
+            pos += r.randrange(14, 40)
         backend, svc, live = self._service(kind, r, [])
         src = os.path.join(scratch, 'src')
         os.makedirs(src)
@@ -511,18 +518,23 @@ class Check(CheckBase):
             _, key, _ = await rep.init(backend, case['settings'], concurrent=3)
             svc.faults = faults
             if kind == 'b2':
-                n = {'left': 3}
+                # the account token expires a few times, never close to a fault burst
+                n = {'left': 3, 'seen': 0}
+                burst_at = [f['nth'] for f in faults]
 
                 def expire(o):
-                    if o in ('b2:upload', 'b2:download', 'b2:list_file_names') and n['left'] and r.random() < 0.1:
+                    n['seen'] = len(svc.requests)
+                    near = any(abs(n['seen'] - b) < 8 for b in burst_at)
+                    if o in ('b2:upload', 'b2:download', 'b2:list_file_names') and n['left'] and not near and r.random() < 0.08:
                         n['left'] -= 1
+                        burst_at.append(n['seen'])
                         return True
                     return False
                 svc.expire_all_on = expire
-            repo = await rep.unlocked(backend, key, concurrent=3)
+            repo = await rep.unlocked(backend, key, concurrent=conc)
             with rep.capture():
                 await repo.snapshot(paths=[Path(src)], rate_limit=r.choice([None, 10_000_000]))
-            repo2 = await rep.unlocked(backend, key, concurrent=3)
+            repo2 = await rep.unlocked(backend, key, concurrent=conc)
             with rep.capture():
                 await repo2.restore(path=Path(target))
             await backend.close()
@@ -537,7 +549,8 @@ class Check(CheckBase):
             import traceback
             v.append({'what': f'snapshot + restore through {kind} failed under transient faults within the budget: {type(e).__name__}: {str(e)[:150]}',
                       'mechanism': None, 'witness': {'trace': traceback.format_exc()[-1500:],
-                                                     'faults': [(f['op'], f['kind'], f['nth'], f['count'], f.get('_hit', 0)) for f in faults]}})
+                                                     'faults': [(f['op'], f['kind'], f['nth'], f['count'], f.get('_hit', 0)) for f in faults],
+                                                     'trail': [(q['op'], q.get('status'), q.get('fault')) for q in svc.requests[-25:]]}})
         hit = sum(f.get('_hit', 0) for f in faults)
         return {'verdict': 'violated' if v else 'held', 'classes': [f'repo|{kind}|faults-hit={min(hit, 9)}'],
                 'counters': {'repo_level_runs': 1, 'repo_level_faults_hit': hit, 'plans': 1}, 'violations': v}
